@@ -239,6 +239,10 @@ impl AsyncSched {
             None => false,
         }
     }
+    /// an event of the harness itself (the scripted peer writing, a caller returning) in the same totally ordered log
+    pub fn note(&self, actor: &str, label: &str, detail: String) {
+        self.inner.lock().unwrap().log.push(json!({"actor": actor, "label": label, "detail": detail}));
+    }
     pub fn take_log(&self) -> Vec<Value> {
         std::mem::take(&mut self.inner.lock().unwrap().log)
     }
